@@ -510,13 +510,11 @@ class Taylor3D(object):
             raise ValueError("Attempted to do setitem where the rhs contains terms not present in lhs")
         # clear the block everywhere (terms that the rhs does not contain are zero in the rhs), then add each
         # rhs term into the first lhs entry with its (n,l), so that repeated (n,l) entries on either side sum up
-        for n, l, c in self.coefflist:
-            c[(slice(0, None, None),) + keyt] = 0
+        rhs = {}
         for nv, lv, cv in value.coefflist:
-            for n, l, c in self.coefflist:
-                if n == nv and l == lv:
-                    c[(slice(0, None, None),) + keyt] += cv
-                    break
+            rhs[(nv, lv)] = rhs[(nv, lv)] + cv if (nv, lv) in rhs else cv
+        for n, l, c in self.coefflist:
+            c[(slice(0, None, None),) + keyt] = rhs.pop((n, l), 0)
 
     def __str__(self):
         """Human readable string representation"""
